@@ -394,6 +394,7 @@ type runner struct {
 
 	attempts       [][]int32 // per graph, per task: attempts started
 	cancelReturned int32
+	overflow       int32 // atomic: a task was entered more often than retries+1
 	preErr         error
 	cancel         context.CancelFunc
 	rng            uint64
@@ -451,6 +452,11 @@ func (r *runner) taskFn(i int) getoptions.CommandFn {
 			r.taskCounters[i]++
 		}
 		attempt := int(atomic.AddInt32(&r.attempts[gi][i], 1))
+		if attempt > r.model.Retries[i]+1 && !r.model.DefErr && !r.model.Cycle && !r.spec.PreFail {
+			// more attempts than retries+1: the C13 rule is already broken on the observed prefix, the controller stops the
+			// run instead of waiting for the watchdog (a loop that never ends its attempts would cost 20 s per run)
+			atomic.StoreInt32(&r.overflow, 1)
+		}
 		// (2) enter
 		r.log(Event{Kind: EvEnter, Graph: gi, Task: i, Attempt: attempt, Seen: seen})
 		l := atomic.AddInt32(&r.live, 1)
@@ -723,9 +729,12 @@ func Execute(spec *Spec) *Trace {
 						tr.DeadlockSnap = fmt.Sprintf("g%d pending=%d inprogress=%d skip=%d done=%d", gi, p, ip, sk, dn)
 					}
 				}
-				if tr.Deadlock || time.Now().After(deadline) {
+				if tr.Deadlock || time.Now().After(deadline) || atomic.LoadInt32(&r.overflow) == 1 {
 					if !tr.Deadlock {
 						tr.Timeout = "eager run did not return within the watchdog"
+						if atomic.LoadInt32(&r.overflow) == 1 {
+							tr.Timeout = "run stopped by the controller: a task was entered more often than retries+1"
+						}
 					}
 					abandon()
 					returned = ng
@@ -871,6 +880,11 @@ func Execute(spec *Spec) *Trace {
 					deadline = time.Now().Add(watchdog)
 					continue
 				}
+			}
+			if atomic.LoadInt32(&r.overflow) == 1 {
+				tr.Timeout = "run stopped by the controller: a task was entered more often than retries+1"
+				abandon()
+				break
 			}
 			if time.Now().After(deadline) {
 				tr.Timeout = fmt.Sprintf("no quiescent point and no return within the watchdog (last snapshot pending=%d inprogress=%d skip=%d done=%d)", p, ip, sk, dn)
